@@ -32,6 +32,10 @@ var c17Ops = []string{
 	"blocked1", "blocked2", "shutdown-a", "shutdown-b",
 }
 
+// operations on unreachable-notice subscriptions of the datagram socket (used in the subscription family of
+// sequences; not part of the general alphabet)
+var c17SubOps = []string{"subscribe-idle", "subscribe-read", "unknown-send2", "unsubscribe"}
+
 type c17State struct {
 	m        *mesh
 	out      *CaseOut
@@ -41,6 +45,7 @@ type c17State struct {
 	conns    []*netceptor.Conn
 	srvConns []net.Conn
 	accepted chan net.Conn
+	subDone  []chan struct{} // done channels of the socket's unreachable subscriptions, still open
 	mu       sync.Mutex
 	log      []string
 }
@@ -204,6 +209,43 @@ func (s *c17State) op(op string) {
 				snd.Close()
 			}
 		}
+	case "subscribe-idle", "subscribe-read":
+		// a subscriber that is slow to take its notices (idle: never reads), and one that reads
+		if s.dgram != nil {
+			// (subscribing waits while an idle subscriber holds up the socket's notices: do not wait with it)
+			pc := s.dgram
+			ret := make(chan struct{})
+			go func() {
+				done := make(chan struct{})
+				ch := pc.SubscribeUnreachable(done)
+				s.mu.Lock()
+				s.subDone = append(s.subDone, done)
+				s.mu.Unlock()
+				close(ret)
+				if op == "subscribe-read" && ch != nil {
+					for range ch {
+					}
+				}
+			}()
+			select {
+			case <-ret:
+			case <-time.After(5 * time.Second):
+				s.note("%s: still waiting behind an idle subscriber", op)
+			}
+		}
+	case "unknown-send2":
+		// two datagrams to services nobody listens on: two notices come back for this socket
+		if s.dgram != nil {
+			s.dgram.WriteTo([]byte("x"), a.NewAddr("b", "nosvc1"))
+			s.dgram.WriteTo([]byte("x"), a.NewAddr("b", "nosvc2"))
+		}
+	case "unsubscribe":
+		s.mu.Lock()
+		if n := len(s.subDone); n > 0 {
+			close(s.subDone[n-1])
+			s.subDone = s.subDone[:n-1]
+		}
+		s.mu.Unlock()
 	case "shutdown-a":
 		a.Shutdown()
 	case "shutdown-b":
@@ -251,6 +293,15 @@ func runC17Seq(t *testing.T, seq []string, early chan CaseOut) {
 			c.Close()
 		}
 		st.wait(500 * time.Millisecond)
+		for round := 0; round < 3; round++ {
+			st.mu.Lock()
+			for _, d := range st.subDone {
+				close(d) // ending a subscription is the subscriber's duty
+			}
+			st.subDone = nil
+			st.mu.Unlock()
+			st.wait(200 * time.Millisecond) // a subscription that was waiting behind an idle one gets through now
+		}
 		if st.li != nil {
 			st.li.Close()
 		}
@@ -403,6 +454,21 @@ func coordC17(c *Coord) {
 			}
 		}
 	}
+	// subscriptions to unreachable notices on the datagram socket: pending notices, unsubscribe, close, shutdown
+	for _, sub := range []string{"subscribe-idle", "subscribe-read"} {
+		tail := []string{"unknown-send2", "unsubscribe", "close-dgram", "ping-expired", "blocked1", "shutdown-a", "subscribe-read"}
+		for _, x := range tail {
+			seqs = append(seqs, []string{"open-dgram", sub, x})
+			for _, y := range tail {
+				seqs = append(seqs, []string{"open-dgram", sub, x, y})
+				if c.Thorough() {
+					for _, z := range tail {
+						seqs = append(seqs, []string{"open-dgram", sub, x, y, z})
+					}
+				}
+			}
+		}
+	}
 	seen := map[string]bool{}
 	p := c.newPool()
 	var wg sync.WaitGroup
@@ -450,7 +516,7 @@ func init() {
 		ID:          "C17",
 		Level:       "model_checking",
 		Technique:   "exhaustive enumeration of operation sequences (open/close/double close/dial/cancel/ping/blocked deliveries/shutdown) on two real nodes with real QUIC streams in a synctest bubble, one process per sequence; leak oracle = listener registries and goroutine count back at the baseline after a two-minute virtual settle; dead-locks classified from the goroutine dump of the frozen bubble",
-		Rule:        "all sequences of length <=2 over 19 operations; length 3: quick = (creator, use, any operation) triples and listen-dial-x-y quadruples, thorough = all 6859 triples plus all quadruples over an 8-operation sub-alphabet. Every sequence is distinct and non-trivial. Close operations repeat on an already closed object (double close).",
+		Rule:        "subscription family: open-dgram, {idle, reading} subscriber to unreachable notices, then every sequence of 1-2 (thorough 3) operations from {two sends to unknown services, unsubscribe, close-dgram, ping-expired, blocked1, shutdown-a, another (reading) subscriber}; all sequences of length <=2 over 19 operations; length 3: quick = (creator, use, any operation) triples and listen-dial-x-y quadruples, thorough = all 6859 triples plus all quadruples over an 8-operation sub-alphabet. Every sequence is distinct and non-trivial. Close operations repeat on an already closed object (double close).",
 		Assumptions: []string{"operations are issued sequentially with 200 virtual ms between them; concurrent senders are modelled by deliveries left blocked on the object being closed", "goroutine count is taken process-wide in a process that runs only this bubble"},
 		Exec:        execC17,
 		Coord:       coordC17,
